@@ -40,6 +40,7 @@ import SigModel.Lemmas.C10R
 import SigModel.Lemmas.C10Rb
 import SigModel.Lemmas.C10Rc
 import SigModel.Lemmas.C10Rd
+import SigModel.Lemmas.C10Re
 
 namespace SigModel.Props.C10
 open SigModel.Wal
@@ -372,6 +373,97 @@ theorem recover_crash_old_partial (cap shard : Nat) (h : List Op) (m : Nat) (hm 
     (hs : (run cap shard h).seg < 18446744073709551616) (hb : (run cap shard h).blkNum < 18446744073709551616) (k : Key) :
     lookup k (diskAfterCrashedRecoveryOld m (dirAfter cap shard h) (durableBlocks cap shard h)) = specBlock cap shard h k :=
   SigModel.Lemmas.C10R.recover_crash_partial cap shard h m hm hg hs hb k
+
+/-- C10.R9 `recovery_flush_crash_safe`: the first restart dies BETWEEN THE SYSTEM CALLS of the flushBlock inside
+RecoverWALData — after `m` of FlushSummary, OpenFile(.tso, O_TRUNC), OpenFile(.tsg, O_TRUNC), Write(.tso), Write(.tsg);
+in between the block files are empty or half written (the block holds nothing readable).  The WAL files are deleted
+only after flushBlock returned, so the second restart replays them again: it ends with exactly the completed datapoints
+on disk, for every `m`.  (A second .mbsu entry for the same block number is harmless: the reader collects block numbers
+into a set — pkg/segment/metadata/tsmeta.go.) -/
+theorem recovery_flush_crash_safe (cap shard : Nat) (h : List Op) (m : Nat)
+    (hs : (run cap shard h).seg < 18446744073709551616) (hb : (run cap shard h).blkNum < 18446744073709551616)
+    (hi : (run cap shard h).walIdx < 18446744073709551616) (k : Key) :
+    lookup k (diskAfterFlushCrashedRecovery m (dirAfter cap shard h) (durableBlocks cap shard h)) = specBlock cap shard h k :=
+  SigModel.Lemmas.C10R.recovery_flush_crash_safe cap shard h m hs hb hi k
+
+/-- … for ANY WAL directory and any block files: the disk after the interrupted flush and a second restart is the disk
+of an uninterrupted recovery -/
+theorem flush_crashed_recovery (m : Nat) (d : RawDir) (disk : Disk) :
+    diskAfterFlushCrashedRecovery m d disk = applyFlushes disk (recover d) :=
+  SigModel.Lemmas.C10R.flush_crashed_recovery m d disk
+
+/-- non-vacuity: the flush is really interrupted (m = 3: both block files truncated) and the block comes back -/
+example : recoverFlushCrashed 3 (dirAfter 2 0 [.ingest 0 ⟨1, 1, 1⟩ false, .walFlush false]) [] = [((dec 0, 0, 0), [])]
+    ∧ diskAfterFlushCrashedRecovery 3 (dirAfter 2 0 [.ingest 0 ⟨1, 1, 1⟩ false, .walFlush false]) [] = [((dec 0, 0, 0), [⟨1, 1, 1⟩])] := by
+  decide +kernel
+
+/-! ### metric names (RecoverMNameWALData, repair c10-5) -/
+
+/-- C10.R10 `name_recovery_complete`: RecoverMNameWALData run to its end writes the names whose name-WAL append had
+completed into the .mnm file of their segment — whether or not a block of that segment is on disk (FlushMetricNames
+creates the directory) —, leaves the other .mnm files alone and removes the WAL -/
+theorem name_recovery_complete (seg : Nat) (ns : List Nat) (mnm : List (Nat × List Nat)) (hne : ns ≠ []) :
+    (recoverNames seg { wal := some ns, mnm := mnm }).wal = none ∧
+    SigModel.Lemmas.C10R.mnmLookup seg (recoverNames seg { wal := some ns, mnm := mnm }).mnm = some ns ∧
+    ∀ seg', seg' ≠ seg →
+      SigModel.Lemmas.C10R.mnmLookup seg' (recoverNames seg { wal := some ns, mnm := mnm }).mnm = SigModel.Lemmas.C10R.mnmLookup seg' mnm := by
+  have h := SigModel.Lemmas.C10R.recoverNames_spec seg ns mnm
+  have he : ns.isEmpty = false := by cases ns with | nil => exact absurd rfl hne | cons _ _ => rfl
+  rw [he] at h
+  refine ⟨h.1, ?_, ?_⟩
+  · rw [h.2]; exact SigModel.Lemmas.C10R.mnmLookup_writeMnm seg ns mnm
+  · intro seg' hs; rw [h.2]; exact SigModel.Lemmas.C10R.mnmLookup_writeMnm_other seg seg' ns mnm hs
+
+/-- C10.R11 `name_recovery_crash_safe`, FULL strength: wherever the first restart's RecoverMNameWALData is interrupted
+(after `m` completed steps: FlushMetricNames, then deleteWalFile), a second restart ends exactly as an uninterrupted
+recovery: no completed metric name is lost -/
+theorem name_recovery_crash_safe (m seg : Nat) (nd : NameDisk) :
+    namesAfterCrashedRecovery m seg nd = recoverNames seg nd :=
+  SigModel.Lemmas.C10R.name_recovery_crash_safe m seg nd
+
+def NameRecoveryCrashSafeOld : Prop :=
+  ∀ (m seg : Nat) (nd : NameDisk), namesAfterCrashedRecoveryOld m seg nd = recoverNames seg nd
+
+/-- C10.R11-old FALSE before the repair c10-5: the name WAL was deleted BEFORE FlushMetricNames; a restart that died
+in between lost every name of the open segment (detector sig=walrecover/crash-in-name-recovery/metric-name-lost stays) -/
+theorem name_recovery_crash_safe_old_counterexample : ¬ NameRecoveryCrashSafeOld := by
+  intro hall
+  have h := hall 1 0 { wal := some [7], mnm := [] }
+  have hc := SigModel.Lemmas.C10R.name_recovery_old_loses
+  rw [hc.1, hc.2] at h
+  revert h
+  decide
+
+/-! ### segment metadata (RecoverMEntryWALData, repair c10-6) -/
+
+/-- C10.R12 `meta_rotation_entry_final`: a segment that has an entry in metricmeta.json when the restart begins — it
+was rotated before the crash — keeps exactly that entry as the one the reader sees; an older snapshot of it in the meta
+WAL is not replayed behind it -/
+theorem meta_rotation_entry_final (s : Sys) (shard seg : Nat)
+    (hrot : (s.metaFile.filter (fun x => x.shard == shard && x.seg == seg)) ≠ []) :
+    metaEntryOf (sysMetaAfterRecovery s) shard seg = metaEntryOf s.metaFile shard seg :=
+  SigModel.Lemmas.C10R.meta_rotation_entry_final s shard seg hrot
+
+/-- C10.R12' a segment without an entry in the file (it was open at the crash) gets the entry of the meta WAL -/
+theorem meta_wal_entry_recovered (s : Sys) (shard seg : Nat)
+    (hrot : (s.metaFile.filter (fun x => x.shard == shard && x.seg == seg)) = []) :
+    metaEntryOf (sysMetaAfterRecovery s) shard seg = metaEntryOf s.metaWal shard seg :=
+  SigModel.Lemmas.C10R.meta_wal_entry_recovered s shard seg hrot
+
+def MetaRotationEntryFinalOld : Prop :=
+  ∀ (s : Sys) (shard seg : Nat), (s.metaFile.filter (fun x => x.shard == shard && x.seg == seg)) ≠ [] →
+    metaEntryOf (sysMetaAfterRecoveryOld s) shard seg = metaEntryOf s.metaFile shard seg
+
+/-- C10.R12-old FALSE before the repair c10-6: ingest, meta-WAL write, more ingest, segment rotation, crash — the older
+WAL snapshot (0 blocks, 1 datapoint, the older time range) was appended behind the rotation entry (1 block, 2
+datapoints) and won (detector sig=walrecover/meta-entry-older-than-rotation stays) -/
+theorem meta_rotation_entry_final_old_counterexample : ¬ MetaRotationEntryFinalOld := by
+  intro hall
+  have hc := SigModel.Lemmas.C10R.hMeta_old_stale
+  have h := hall (sysRun 1000 1 SigModel.Lemmas.C10R.hMeta) 0 0 (by decide +kernel)
+  rw [hc.1, hc.2.1] at h
+  revert h
+  decide
 
 /-- C10.R6 the Oracle's shortcut for generated bulk loads (`ingestMany`) is the step-by-step model -/
 theorem ingestMany_eq_foldl (cap name : Nat) (roll : Bool) (ds : List Dp) (st : WState)
